@@ -3337,9 +3337,8 @@ class Wallet(object):
         utxos = qr.order_by(DbTransaction.confirmations.desc()).all()
         res = []
         for utxo in utxos:
-            u = utxo[0].__dict__
-            if '_sa_instance_state' in u:
-                del u['_sa_instance_state']
+            # Copy attributes, do not modify the database object which stays in the session
+            u = {k: v for k, v in utxo[0].__dict__.items() if k != '_sa_instance_state'}
             u['address'] = utxo[1]
             u['confirmations'] = int(utxo[2])
             u['txid'] = utxo[3].hex()
